@@ -26,7 +26,9 @@ CHECKS = {
         note="law trees are my transcription of HH93 and of UCLCHEM v1.3's RR07 routines in the generator's operand order (papers not "
              "available offline): where I cannot vouch for a constant independently the tree pins the current behaviour"),
     "C20": dict(level="model_checking", design_ref="DESIGN.md §4 C20, §11, §12",
-        technique="TLA+ spec ConfigRoundTrip.tla (InitParse -> Content -> RenderRead over token shapes) model-checked with TLC; real "
+        technique="TLA+ spec ConfigRoundTrip.tla (two entries, InitParse | DirectWrite, -> Content -> RenderRead over token shapes) model-checked with TLC; real "
+                  "BaseConfiguration(...).content + `naunet render --force` runs (the Python entry, numeric rate coefficients given as numbers), `naunet example` run "
+                  "for real over an older network file, and real "
                   "`naunet init ... --render` runs with the written TOML and the constructor arguments of Network / TemplateLoader "
                   "captured and judged by Trace_ConfigRoundTrip.tla; rendered tree compared with the equivalent API rendering; summary table vs "
                   "generated headers; bundled examples -> configuration; TLA+ spec Project.tla (project directory over init / edit / render / "
@@ -78,13 +80,14 @@ CHECKS = {
              "ionisation rates and coefficient values; the strict parser rejects operator fusion and stray tokens (valid C); all 34 "
              "(format, code) pairs x {neg, zero, pos}^3 x magnitude classes incl. 1e+300 and 5e-324 are covered (exhaustive over the sign "
              "classes in the thorough tier); every emitted reaction has its rate statement, and the table searches of the shielding functions "
-             "the photoreaction laws call reach the last cell of their axis.",
+             "the photoreaction laws call reach the last cell of their axis; the dust-scattering helper of the UCLCHEM CO law is compiled and run on a grid, "
+             "its fit chosen by the optical depth at the wavelength.",
         note="law trees are my transcription of the published laws in the generator's operand order; a structural mismatch is re-examined "
              "numerically against closed-form laws: value-equal => stale table (exit 2), else VIOLATION"),
     "C18": dict(level="model_checking", design_ref="DESIGN.md §4 C18, §11, §12",
         technique="TLA+ spec RoundTrip.tla (write / read / edit / write / read with an abstract printing function) model-checked with TLC; "
                   "real networks from all formats and the API cycled through the native format, files decoded by an independent "
-                  "reader, exported networks re-read and their rate statements compared with the direct rendering; judged by "
+                  "reader, exported networks (gas-grain, grain-charging, thermal) re-read and their rate statements compared with the direct rendering; judged by "
                   "Trace_RoundTrip.tla",
         text="TLC checks ReadWriteId, SecondCycleIdempotent and EditsAreWritten for all idempotent printing functions over a small value "
              "domain; every real cycle must produce the records / networks the specification produces (species with multiplicity, "
